@@ -1378,7 +1378,8 @@ class Mesh:
             data['doflocs'],
             data['t'],
             _boundaries={
-                key[2:]: data[key]
+                key[2:]: (OrientedBoundary(data[key], data['o_' + key[2:]])
+                          if 'o_' + key[2:] in data.files else data[key])
                 for key in data.files
                 if key[:2] == 'b_'
             },
@@ -1393,12 +1394,17 @@ class Mesh:
 
         boundaries = {} if self.boundaries is None else self.boundaries
         subdomains = {} if self.subdomains is None else self.subdomains
-        boundaries = {'b_' + key: value for key, value in boundaries.items()}
+        orientations = {'o_' + key: value.ori
+                        for key, value in boundaries.items()
+                        if isinstance(value, OrientedBoundary)}
+        boundaries = {'b_' + key: np.asarray(value)
+                      for key, value in boundaries.items()}
         subdomains = {'s_' + key: value for key, value in subdomains.items()}
         np.savez(
             filename,
             doflocs=self.doflocs,
             t=self.t,
             **boundaries,
+            **orientations,
             **subdomains,
         )
